@@ -114,6 +114,22 @@ def do_check(prop, tier):
             known_confirmed[ent["id"]] = 0
             _print(f"KNOWN-FINDING: property={prop} {ent['id']}: {ent['what']}")
 
+    # 1b. pinned regression cases of REPAIRED findings whose shape is too rare for the random search to re-find
+    #     reliably: executed on every run; a fixed entry suppresses nothing - if the case fails again it is a VIOLATION
+    for ent in findings.load():
+        if ent.get("property") == prop and ent.get("status") == "fixed" and ent.get("pinned_regression"):
+            path = os.path.join(VERIF_DIR, ent["pinned_regression"])
+            try:
+                ok, res = replay_file(path)
+            except runner.HarnessError as e:
+                harness_errors.append(f"pinned regression {ent['id']}: {e}")
+                continue
+            if ok:
+                exit_code = 1
+                _print(f"VIOLATION property={prop} replay={path}")
+                _print(f"  pinned regression case of repaired finding {ent['id']} fails again")
+                violations_out.append({"class": "REGRESSION", "fingerprint": [ent["id"]], "count": 1, "replay": path})
+
     # 2. seeded search, one part (engine + parameters) after the other
     parts_summary = []
     total_runs = 0
